@@ -49,6 +49,9 @@ def hash_memo(ctx):
     rh = analyze(m, h)
     for s, v, node in rh.returns:
         ctx.instance(rule)
-        ok = (v[0] == "call" and v[1] == ("builtin", "hash")) or (v[0] == "call" and v[1][0] == "attr" and v[1][2] == "get" and v[2] and v[2][0] == ("const", "hash"))
+        cache = ("attr", ("param", "self"), "_cache")
+        memo_get = v[0] == "call" and v[1][0] == "attr" and v[1][2] == "get" and v[2] and v[2][0] == ("const", "hash")
+        memo_sub = v[0] == "sub" and v[2] == ("const", "hash") and (v[1] == cache or (v[1][0] == "mut" and show(v[1]).startswith("self._cache")))
+        ok = (v[0] == "call" and v[1] == ("builtin", "hash")) or memo_get or memo_sub
         ctx.ob(rule, h.qual, f"return {show(v)[:60]}", ok, "__hash__ returns something other than hash(key) or its memo", where(h, node),
                sample="hash(key) or the memo")
